@@ -420,6 +420,7 @@ var Mutants = map[string][]Mutant{
 		{"vertical fonts written as horizontal", "renderers/pdf/writer.go", `w\.writeFonts\(w\.fontsV, true\)`, `w.writeFonts(w.fontsV, false)`, "E5.fontmaps"},
 	},
 	"C19": {
+		{"imported dashes left in user units", "svg.go", `svg\.ctx\.Style\.DashOffset, svg\.ctx\.Style\.Dashes = ScaleDash\(1\.0/w, offset, dashes\)`, "svg.ctx.Style.DashOffset, svg.ctx.Style.Dashes = ScaleDash(1.0, offset, dashes)", "E11.svg-dash-units"},
 		{"dasharray through SetDashes resets the dash offset", "svg.go", `svg\.ctx\.Style\.Dashes = svg\.parsePoints\(val\)`, "svg.ctx.SetDashes(0.0, svg.parsePoints(val)...)", "E11.svg-attribute-independence"},
 		{"RotateAbout corrects the translation of an identity receiver only", "util.go", `return m\.Translate\(x, y\)\.Rotate\(rot\)\.Translate\(-x, -y\)`, "m = m.Rotate(rot)\n\tp := m.Dot(Point{x, y})\n\tm[0][2] += x - p.X\n\tm[1][2] += y - p.Y\n\treturn m", "E11."},
 		{"a repeated close forgets the removed sub-path", "path.go", `(?s)\t\t\tif wasEmptyClosed \{.*?\} else \{\n\t\t\t\t(p1 = p\.StartPos\(\)\n)\t\t\t\t(p\.Close\(\)\n)\t\t\t\t(emptyClosed = !p\.Pos\(\)\.Equals\(p1\)\n)\t\t\t\}\n`, "\t\t\t_ = wasEmptyClosed\n\t\t\t${1}\t\t\t${2}\t\t\t${3}", "E11.empty-close-keeps-position"},
